@@ -30,10 +30,7 @@ class Solver(object):
         self.time = 0.0
         self.queries = 0
         self.send('(set-option :produce-models true)')
-        if logic:
-            self.send('(set-logic %s)' % logic)
-        elif kind == 'cvc5':
-            self.send('(set-logic ALL)')
+        self.send('(set-logic %s)' % (logic or 'ALL'))
         self.errors = []
 
     def send(self, text):
